@@ -258,6 +258,16 @@ run_jsf(const vset_t *sa, const vset_t *sb) {
 		if (!begin_case("bn_calc_jsf")) continue;
 		d_op = "bn_calc_jsf"; d_a = av; d_cap = cap_min(a); d_set = vs_name(sb);
 		vh_publish_desc();
+		{	/* warm-up with well-defined operands (1, 1), result ignored: whatever an optimiser leaves in registers for
+			 * the library's undefined reads (finding 11) is then the same whether the preceding case ran or was skipped */
+			R one; size_t c0 = 0, o0 = 0;
+			r_set_u64(&one, 1);
+			g_fill = 0xA5;
+			bn_make(X, &one, 1, g_fill); bn_make(Y, &one, 1, g_fill);
+			g_cur_a = &one; g_cur_b = &one; g_cur_k = 8;
+			paint_stack(g_fill);
+			(void)call_jsf(X, Y, 8, (int8_t *)gbuf(0, 8), &c0, &o0);
+		}
 		for (j = 0; j < sb->n; j ++) {
 			size_t off, bl;
 			vs_get(sb, j, &b);
